@@ -122,6 +122,52 @@ def _eliminate_bare_returns(stmts: List[ast.stmt]) -> Optional[List[ast.stmt]]:
     return out
 
 
+def _ends_closed(stmts: List[ast.stmt]) -> bool:
+    """no path falls off the end of the block: it ends in return/raise, or in an if whose two arms both do"""
+    if not stmts:
+        return False
+    last = stmts[-1]
+    if isinstance(last, (ast.Return, ast.Raise)):
+        return True
+    if isinstance(last, ast.If):
+        return _ends_closed(last.body) and _ends_closed(last.orelse)
+    return False
+
+
+def _assign_returns(stmts: List[ast.stmt], mk) -> Optional[List[ast.stmt]]:
+    """rewrite a helper body with several `return <v>` (at the ends of if-arms / of the body) into a block that assigns
+    the result instead: statements after an arm that returns move into the other arm.  None if a return sits inside a
+    loop/with/try/match or an arm returns on some paths only."""
+    out: List[ast.stmt] = []
+    for i, s in enumerate(stmts):
+        if isinstance(s, ast.Return):
+            out.append(mk(s.value if s.value is not None else ast.Constant(value=None), s))
+            return out
+        if isinstance(s, ast.If) and (_has_return(s.body) or _has_return(s.orelse)):
+            rest = stmts[i + 1:]
+            b_closed, e_closed = _ends_closed(s.body), _ends_closed(s.orelse)
+            if b_closed and e_closed:
+                body, orelse = _assign_returns(s.body, mk), _assign_returns(s.orelse, mk)
+            elif b_closed:
+                body, orelse = _assign_returns(s.body, mk), _assign_returns(list(s.orelse) + rest, mk)
+            elif e_closed:
+                body, orelse = _assign_returns(list(s.body) + rest, mk), _assign_returns(s.orelse, mk)
+            else:
+                return None
+            if body is None or orelse is None:
+                return None
+            out.append(ast.copy_location(ast.If(test=s.test, body=body or [ast.copy_location(ast.Pass(), s)], orelse=orelse), s))
+            return out
+        if isinstance(s, ast.Raise):
+            out.append(s)
+            return out
+        if _has_return([s]):
+            return None
+        out.append(s)
+    out.append(mk(ast.Constant(value=None), stmts[-1] if stmts else None))
+    return out
+
+
 def _ends_in_return(stmts: List[ast.stmt]) -> bool:
     if not stmts:
         return False
@@ -131,6 +177,12 @@ def _ends_in_return(stmts: List[ast.stmt]) -> bool:
     if isinstance(last, ast.If):
         return _ends_in_return(last.body) and _ends_in_return(last.orelse)
     return False
+
+
+def _walk_header(node):
+    """the expressions evaluated by a CFG node itself (not the bodies of the compound statement it heads)"""
+    from .cfg import walk_node
+    return walk_node(node)
 
 
 class Inliner:
@@ -256,7 +308,19 @@ class Inliner:
             return (pre + [tr.visit(x) for x in body]) or [ast.copy_location(ast.Pass(), call)]
         if mode == "assign":
             if len(rets) != 1 or not last_is_ret or rets[0] is not orig_body[-1] or rets[0].value is None:
-                return None
+                # several value returns in if-arms: assign the result in each arm instead
+                def mk(v, at):
+                    a = ast.Assign(targets=[ast.Name(id="__pwsa_result__", ctx=ast.Store())], value=v)
+                    return ast.copy_location(a, at) if at is not None else ast.copy_location(a, call)
+                flat = _assign_returns([copy.deepcopy(x) for x in orig_body], mk)
+                if flat is None or not rets:
+                    return None
+                res = [tr.visit(x) for x in flat]
+                for x in res:
+                    for y in ast.walk(x):
+                        if isinstance(y, ast.Assign) and len(y.targets) == 1 and isinstance(y.targets[0], ast.Name) and y.targets[0].id == "__pwsa_result__":
+                            y.targets = [copy.deepcopy(target)]
+                return pre + res
             value = tr.visit(body[-1]).value
             out = [tr.visit(x) for x in body[:-1]]
             asg = ast.copy_location(ast.Assign(targets=[copy.deepcopy(target)], value=value), call)
@@ -391,3 +455,77 @@ class Inliner:
             if len(self.inlined) > before:
                 ast.fix_missing_locations(new)
                 fi.node = new
+        self.repo.absorbed = self._absorbed(fis)
+        for fi in fis:
+            if not fi.module.relpath.startswith("examples/"):
+                self._level_aliases(fi)
+
+    LEVEL_KILLERS = {"expand", "contract", "_set_measured", "measure", "measure_POVM", "apply_kraus", "apply_operation", "combine", "extract"}
+
+    def _level_aliases(self, fi) -> None:
+        """`level = X.expansion_level` … `if level == ExpansionLevel.Vector:` is read as a test of X.expansion_level when
+        nothing that can change a level (a store to an expansion_level attribute, expand/contract/measure/apply… calls)
+        lies on any path between the alias and its use; otherwise the function is left exactly as written"""
+        from .cfg import CFG
+        fn = fi.node
+        cands = {}
+        stores: Dict[str, int] = {}
+        for x in ast.walk(fn):
+            if isinstance(x, ast.Name) and isinstance(x.ctx, (ast.Store, ast.Del)):
+                stores[x.id] = stores.get(x.id, 0) + 1
+            if isinstance(x, ast.Assign) and len(x.targets) == 1 and isinstance(x.targets[0], ast.Name) and isinstance(x.value, ast.Attribute) \
+                    and x.value.attr == "expansion_level" and _is_simple(x.value):
+                cands[x.targets[0].id] = x
+        params = {a.arg for a in fn.args.posonlyargs + fn.args.args + fn.args.kwonlyargs}
+        cands = {k: v for k, v in cands.items() if stores.get(k) == 1 and k not in params}
+        if not cands:
+            return
+        new = copy.deepcopy(fn) if fn is getattr(fi, "orig", None) else fn
+        # (re-locate the candidate statements in the copy by position)
+        pos = {(v.lineno, v.col_offset): k for k, v in cands.items()}
+        cfg = CFG(new)
+        changed = False
+        for nd in list(cfg.nodes):
+            a = nd.ast
+            if nd.kind == "stmt" and isinstance(a, ast.Assign) and (a.lineno, a.col_offset) in pos and len(a.targets) == 1 \
+                    and isinstance(a.targets[0], ast.Name) and a.targets[0].id == pos[(a.lineno, a.col_offset)]:
+                name, value = a.targets[0].id, a.value
+                after = cfg.reachable([m for m, _ in cfg.succ[nd]])
+                killers = [k for k in after if k.ast is not None and any(
+                    (isinstance(y, ast.Attribute) and y.attr in ("expansion_level", "_expansion_level") and isinstance(y.ctx, ast.Store))
+                    or (isinstance(y, ast.Call) and isinstance(y.func, ast.Attribute) and y.func.attr in self.LEVEL_KILLERS)
+                    for y in _walk_header(k))]
+                tainted = cfg.reachable([m for k in killers for m, _ in cfg.succ[k]]) if killers else set()
+                uses = [(u, y) for u in after if u.ast is not None for y in _walk_header(u) if isinstance(y, ast.Name) and y.id == name and isinstance(y.ctx, ast.Load)]
+                if not uses or any(u in tainted for u, _ in uses):
+                    continue
+                ids = {id(y) for _, y in uses}
+
+                class _R(ast.NodeTransformer):
+                    def visit_Name(self, n):
+                        if id(n) in ids:
+                            return ast.copy_location(copy.deepcopy(value), n)
+                        return n
+                _R().visit(new)
+                changed = True
+        if changed:
+            ast.fix_missing_locations(new)
+            fi.node = new
+
+    def _absorbed(self, fis) -> set:
+        """new private helpers whose every call site was rewritten: their bodies are analysed inside their callers,
+        so whole-program scans do not look at them a second time out of context"""
+        names = {q.split(".")[-1].split(":")[-1] for _, q in self.inlined}
+        names = {n for n in names if n.startswith("_") and n not in KNOWN_PRIVATE}
+        out = set()
+        for name in names:
+            left = 0
+            for fi in fis:
+                if fi.node.name == name:
+                    continue
+                for x in ast.walk(fi.node):
+                    if (isinstance(x, ast.Attribute) and x.attr == name) or (isinstance(x, ast.Name) and x.id == name):
+                        left += 1
+            if left == 0:
+                out |= {fi.qualname for fi in fis if fi.node.name == name}
+        return out
